@@ -5,8 +5,16 @@ HERE="$(cd "$(dirname "$0")" && pwd)"
 export GOFLAGS=-mod=mod GOPROXY=off
 export VERIF_DIR="$HERE"
 mkdir -p "$HERE/bin" "$HERE/build" "$HERE/evidence"
-cd "$HERE/harness" || exit 2
-cp /repo/go.sum go.sum 2>/dev/null
+REPO="${VERIF_REPO:-/repo}"
+HARNESS="$HERE/harness"
+if [ "$REPO" != "/repo" ]; then
+  # exploratory runs against a snapshot of the repository (never used by the registered checks)
+  rm -rf "$HERE/build/harness-alt" && cp -r "$HERE/harness" "$HERE/build/harness-alt"
+  HARNESS="$HERE/build/harness-alt"
+  (cd "$HARNESS" && go mod edit -replace "github.com/onflow/atree=$REPO")
+fi
+cd "$HARNESS" || exit 2
+cp "$REPO/go.sum" go.sum 2>/dev/null
 ID="${1:-}"
 case "$ID" in
   C04|C16)
@@ -14,7 +22,7 @@ case "$ID" in
     if ! go build -o "$HERE/bin/instrument" ./cmd/instrument 2>"$HERE/build/build.err"; then
       echo "BUILD FAILED (instrumenter):"; cat "$HERE/build/build.err"; exit 2
     fi
-    if ! (cd /repo && "$HERE/bin/instrument" /repo "$HERE/build/sched" "$HERE/harness/vsched_src/vsched.go") >"$HERE/build/instrument.out" 2>&1; then
+    if ! (cd "$REPO" && "$HERE/bin/instrument" "$REPO" "$HERE/build/sched" "$HERE/harness/vsched_src/vsched.go") >"$HERE/build/instrument.out" 2>&1; then
       echo "TOOL ERROR (instrumenter could not rewrite the current sources):"; cat "$HERE/build/instrument.out"; exit 2
     fi
     cat "$HERE/build/instrument.out"
